@@ -90,8 +90,17 @@ def splitColon (s : List UInt8) : List (List UInt8) :=
 
 /-! ### payload -/
 
-/-- Go `time.Since(time.Unix(t, 0)) > Duration(life) * time.Second` with `now` in nanoseconds -/
-def olderThan (nowNs : Int) (t : Int) (life : Int) : Bool := decide (nowNs - t * 1000000000 > life * 1000000000)
+/-- Go `int64` wrap-around -/
+def wrap64 (x : Int) : Int := (x + 9223372036854775808) % 18446744073709551616 - 9223372036854775808
+
+/-- `time.Unix(t, 0)` stores `t + 62135596800` seconds in an int64; for `t` within 62135596800 s of the largest int64
+that sum wraps and the instant lands ~292 billion years in the past. `unixEff t` is the Unix time actually denoted. -/
+def unixEff (t : Int) : Int := wrap64 (t + 62135596800) - 62135596800
+
+/-- Go `time.Since(time.Unix(t, 0)) > time.Duration(life) * time.Second` with `now` in nanoseconds. (`Sub` saturates
+at ±2⁶³ ns, which does not change a strict comparison with a smaller bound; the product on the right wraps.) -/
+def olderThan (nowNs : Int) (t : Int) (life : Int) : Bool :=
+  decide (nowNs - unixEff t * 1000000000 > wrap64 (life * 1000000000))
 
 /-- `GeneratePayload` given the 8 random bytes and the clock: nonce ++ be64(unix(now + life ns)) ++ mac[:16], in hex.
 (The Go code adds `life` NANOSECONDS to the clock here — `time.Duration(s.lifeTimePayload)` without `* time.Second` —
